@@ -204,6 +204,21 @@ fn run_limited(args: &[&str], stdin: Option<&str>, limit: std::time::Duration) -
     finish(start(args, stdin, limit))
 }
 
+/// The parent process never runs generators itself: some generators execute library code
+/// (look-ahead on the real encoder, bits-back traces), which may hang or abort under a broken
+/// library.  The trace is printed by a child; if that fails, a `Regenerate` trace stands in
+/// (replaying it regenerates and executes the run inside the replay child).
+pub fn generate_in_child(prop: &str, seed: u64, index: u64, thorough: bool) -> Trace {
+    let limit = std::time::Duration::from_secs(std::env::var("SIMCHECK_RUN_TIMEOUT").ok().and_then(|s| s.parse::<u64>().ok()).unwrap_or(60));
+    let f = run_limited(&["gen", prop, &index.to_string(), if thorough { "thorough" } else { "quick" }, &seed.to_string()], None, limit);
+    if f.status.map_or(false, |s| s.success()) {
+        if let Ok(t) = serde_json::from_str::<Trace>(&f.stdout) {
+            return t;
+        }
+    }
+    Trace::Regenerate { prop: prop.to_string(), verif_seed: seed, index, thorough }
+}
+
 fn self_exe() -> PathBuf {
     std::env::current_exe().expect("current_exe")
 }
@@ -624,8 +639,7 @@ pub fn check(opts: &CheckOpts) -> i32 {
     for (class, list) in by_class.iter() {
         let mut shown = false;
         for (i, v) in list.iter() {
-            let rs = run_seed(opts.seed, prop, *i);
-            let trace = worlds::generate(prop, rs, *i, opts.thorough);
+            let trace = generate_in_child(prop, opts.seed, *i, opts.thorough);
             if let Some(k) = matches_known(&known, prop, v, &trace) {
                 *known_hits.entry(k.what.clone()).or_insert(0) += 1;
                 continue;
@@ -681,8 +695,7 @@ pub fn check(opts: &CheckOpts) -> i32 {
         }
     }
     for d in res.deaths.iter() {
-        let rs = run_seed(opts.seed, prop, d.index);
-        let trace = worlds::generate(prop, rs, d.index, opts.thorough);
+        let trace = generate_in_child(prop, opts.seed, d.index, opts.thorough);
         if d.status == "timeout" {
             // wall-clock alone decides nothing: the run must exceed the limit again, alone
             match exec_in_child(prop, &trace) {
@@ -733,8 +746,7 @@ pub fn check(opts: &CheckOpts) -> i32 {
             exit = exit.max(2);
         }
         for (i, msg) in ub.iter() {
-            let rs = run_seed(opts.seed, prop, *i);
-            let trace = worlds::generate(prop, rs, *i, false);
+            let trace = generate_in_child(prop, opts.seed, *i, false);
             let v = Violation::new(prop, "miri-undefined-behaviour", 0, msg.clone());
             if let Some(k) = matches_known(&known, prop, &v, &trace) {
                 *known_hits.entry(k.what.clone()).or_insert(0) += 1;
